@@ -33,6 +33,20 @@ func newPE(c *Ctx) *pe.Machine {
 	return m
 }
 
+// runPE runs the evaluator and turns an exhausted step budget into a fatal
+// (undecided) result instead of silently using partial results.
+func runPE(c *Ctx, m *pe.Machine, fn *ssa.Function, args []pe.Val) *pe.Result {
+	res := m.Run(fn, args)
+	if m.Exceeded {
+		budgetMu.Lock()
+		c.Rep.Fatalf("evaluator step budget exceeded in %s: undecided", core.FuncName(fn))
+		budgetMu.Unlock()
+	}
+	return res
+}
+
+var budgetMu sync.Mutex
+
 // rawInput creates the abstract datagram: byte 0 and 1 known, the rest and the
 // length unknown.
 func rawInput(m *pe.Machine, b0, b1 int) pe.Val {
@@ -79,7 +93,7 @@ func dispatchTable(c *Ctx, fn *ssa.Function) (tab map[[2]int]map[string]bool) {
 					}
 					return false, pe.U
 				}
-				m.Run(fn, []pe.Val{raw})
+				runPE(c, m, fn, []pe.Val{raw})
 				mu.Lock()
 				if tab[[2]int{pt, fmtv}] == nil {
 					tab[[2]int{pt, fmtv}] = map[string]bool{}
@@ -205,7 +219,7 @@ func emittedKinds(c *Ctx, typ string) (kinds map[spec.PTFMT]bool, how string, er
 		}
 		return false, pe.U
 	}
-	res := m.Run(fn, []pe.Val{recv})
+	res := runPE(c, m, fn, []pe.Val{recv})
 	if viaHeader {
 		return kinds, "Header value passed to Header.Marshal", nil
 	}
@@ -398,7 +412,7 @@ func checkC07(c *Ctx) {
 					m := newPE(c)
 					raw := rawInput(m, 0x80|pb<<5|f, pt)
 					ro := m.NewObj("recv", p.Named(t), true)
-					res := m.Run(fn, []pe.Val{{K: pe.Addr, Obj: ro}, raw})
+					res := runPE(c, m, fn, []pe.Val{{K: pe.Addr, Obj: ro}, raw})
 					acc := false
 					for _, o := range res.Returns {
 						if len(o.Vals) != 1 {
@@ -451,7 +465,7 @@ func checkC07(c *Ctx) {
 		m := newPE(c)
 		raw := rawInput(m, 0x80, 0)
 		ro := m.NewObj("recv", p.Named("RawPacket"), true)
-		res := m.Run(fn, []pe.Val{{K: pe.Addr, Obj: ro}, raw})
+		res := runPE(c, m, fn, []pe.Val{{K: pe.Addr, Obj: ro}, raw})
 		okAll, n := true, 0
 		for _, o := range res.Returns {
 			if len(o.Vals) != 1 || o.Vals[0].K == pe.NonNil {
